@@ -337,6 +337,10 @@ func (a *Accumulator) WitnessFor(idx int64) ([]Witness, error) {
 	}
 	offset := len(a.roots)
 	for offset > 0 {
+		if a.roots[offset-1] == nil {
+			offset -= 1
+			continue
+		}
 		inbound := int64(1) << uint(offset-1)
 		if idx < inbound {
 			witness := make([]Witness, 0, offset-1)
